@@ -200,10 +200,13 @@ def eval_shard(args):
     workdir, shard = args
     f = os.path.join(workdir, shard["file"])
     rc, out = run(["coqc", "-noglob"] + COQ_Q + [f], cwd=workdir, timeout=1800)
-    res = {"corr": None, "oracle": None, "rc": rc, "out": ""}
-    for m in re.finditer(r"=\s*\((TagCorr|TagOracle),\s*(\[[^\]]*\])\)", out):
+    res = {"corr": None, "oracle": None, "info": [], "rc": rc, "out": ""}
+    for m in re.finditer(r"=\s*\((TagCorr|TagOracle|TagInfo),\s*(\[[^\]]*\])\)", out):
         idx = [int(x) for x in re.findall(r"(\d+)%N", m.group(2))]
-        res["corr" if m.group(1) == "TagCorr" else "oracle"] = [shard["start"] + i for i in idx]
+        if m.group(1) == "TagInfo":
+            res["info"] = idx
+        else:
+            res["corr" if m.group(1) == "TagCorr" else "oracle"] = [shard["start"] + i for i in idx]
     if rc != 0 or res["corr"] is None or res["oracle"] is None:
         res["out"] = out[-2000:]
     return res
@@ -329,6 +332,7 @@ def main(prop_spec):
     brc, bout, bsecs = build_harness()
     report = None
     corr_fail, orc_fail = [], []
+    model_info = []
     impl_failures = []
     descs = []
     if brc != 0:
@@ -352,6 +356,10 @@ def main(prop_spec):
                         break
                     corr_fail += r["corr"]
                     orc_fail += r["oracle"]
+                    for k, x in enumerate(r.get("info", [])):
+                        while len(model_info) <= k:
+                            model_info.append(0)
+                        model_info[k] += x
             elif not model_runnable:
                 notes.append("model not runnable (build failed): correspondence skipped, direct oracle on the implementation only")
 
@@ -433,7 +441,8 @@ def main(prop_spec):
             "partial": prop_spec.get("partial", []),
             "translators": translator_status,
             "correspondence": {"cases_compared_with_model": sum(s["count"] for s in (report or {}).get("shards", [])),
-                               "disagreements": len(corr_fail), "first_disagreements": corr_fail[:10]},
+                               "disagreements": len(corr_fail), "first_disagreements": corr_fail[:10],
+                               "runner_info": model_info, "runner_info_meaning": prop_spec.get("info_meaning", "")},
             "oracle": {"implementation_side_failures": len(impl_failures), "spec_oracle_failures": len(orc_fail),
                        "known_finding_classes_seen": sorted(seen_known.keys())},
             "distribution": (report or {}).get("distribution", {}),
